@@ -141,6 +141,16 @@ def gen(rng, tier):
         for _ in range(rng.randrange(8, 30)):
             cmds.append("get 0 %s - %s -" % (rng.choice(allk), enc(rng.choice(keys)))); obs.append(True)
         out.append(Scenario(cmds, obs, tags=("mixed",)))
+    # files read without delimiter (every line a key without value), with trailing comments, names that look like numbers
+    for _ in range(60 if tier == "quick" else 3000):
+        lines, keys = [], []
+        for j in range(rng.randrange(2, 9)):
+            if rng.random() < 0.15: lines.append(b"[s%d]" % j); continue
+            k = rng.choice([b"eth", b"vlan", b"lo", b"bond", b"x", b"-", b"0x", b"n"]) + rng.choice([b"", b"0", b"100", b"0x1F", b"-007", b"7e2", b"1.5"]) + (b"_%d" % j)
+            keys.append(k)
+            lines.append(k + rng.choice([b"", b"", b" # uplink 42", b"\t#7", b"   "]))
+        cmds = [gens.parse_cmd(0, b"/d/shells", b"\n".join(lines) + b"\n", rng.choice([b"", b"\n"]), b"#"), "getall 0"]
+        out.append(Scenario(cmds, [True, True], tags=("nodelim",)))
     # bare keys: no value at all
     out.append(Scenario([gens.parse_cmd(0, b"/d/bare.conf", b"k\nk2=\n[s]\nk3\n", b"=", b"#"), "getall 0"], [False, True], tags=("bare",)))
     return out
